@@ -215,11 +215,96 @@ inline T modest_value(Ctx& c) {  // |v| in [1e-3, 1e3]: conversions cannot overf
 }
 
 // ---------------------------------------------------------------------------------- byte strings
-extern const char* const kNumberGrammar[];
-extern const int kNumberGrammarSize;
-std::string arbitrary_bytes(Ctx& c);                   // includes NUL and non-ASCII
-std::string mutate(Ctx& c, const std::string& s);      // one-byte mutations / truncation / extension
-std::string number_like(Ctx& c);
+template <class T> T finite_value(Ctx& c);
+inline constexpr const char* kNumberGrammar[] = {
+    "0", "-0", "+0", "1", "-1", "1.5", "-2.25", "1e10", "1E-10", "1e999", "-1e999", "1e-999", "-1e-999", "1e39", "1e-46",
+    "3.4028235e38", "3.4028236e38", "1.7976931348623157e308", "1.7976931348623159e308", "1.18973149535723176502e+4932",
+    "1.2e+4932", "4.9e-324", "2e-324", "nan", "NaN", "-nan", "nan(123)", "inf", "-inf", "infinity", "INF", "0x1p3", "0x1.8p-2",
+    "0x", "0xg", "1e", "1e+", "1e-", "e5", ".", "+", "-", "", " ", " 12", "12 ", "\t3", "\n4", "1,5", "1.2.3", "--1", "+-1", "1_000",
+    "1e5x", "12abc", "abc", ".5", "5.", "-.5e-3", "00012", "1e0000000000000000000000001", "9999999999999999999999999999999999999999",
+    "0.000000000000000000000000000000000000000000000000000000000000000000000000000001", "1e2147483648", "1e-2147483649", "1d5",
+    "١٢٣", "１２", "1\xC2\xA0", "1 2", "(1)", "1f", "1L", "0b101", "0o7", "TRUE", "null"};
+inline constexpr int kNumberGrammarSize = static_cast<int>(sizeof(kNumberGrammar) / sizeof(kNumberGrammar[0]));
+
+inline std::string arbitrary_bytes(Ctx& c) {
+  static const int lens[] = {0, 1, 1, 2, 3, 4, 5, 8, 15, 16, 17, 31, 64, 200, 255, 256, 257, 1000, 5000};
+  size_t n = static_cast<size_t>(lens[c.below(c.below(8) ? 14 : 19)]);
+  std::string s;
+  std::uint64_t style = c.below(4);
+  for (size_t i = 0; i < n; ++i) {
+    std::uint64_t r = c.next();
+    unsigned char b;
+    if (style == 0) b = static_cast<unsigned char>(r & 0xFF);               // anything, incl. NUL and >127
+    else if (style == 1) b = static_cast<unsigned char>(32 + r % 95);       // printable ASCII
+    else if (style == 2) b = static_cast<unsigned char>(128 + r % 128);     // non-ASCII only
+    else b = (r % 5 == 0) ? 0 : static_cast<unsigned char>("0123456789.eE+-xXpPnaifNAIF _\t"[r % 31]);
+    s.push_back(static_cast<char>(b));
+  }
+  return s;
+}
+
+// UTF-8 sequences that occur in (or are confusable with) the spellings of unit tables
+inline constexpr const char* kTokens[] = {"\xC2\xB5" /* micro sign */, "\xCE\xBC" /* greek mu */, "\xC2\xB0" /* degree */, "\xC2\xB7" /* middle dot */,
+                                      "\xC2\xB2", "\xC2\xB3", "\xE2\x8B\x85" /* dot operator */, "\xCE\xA9" /* ohm */, "\xE2\x84\xA6", "\xE2\x84\x83",
+                                      "\xC2\xA0", "\xEF\xBB\xBF", "\xE2\x81\xBB\xC2\xB9", "^", "/", "*", "-", "(", ")", "e", "E", "s", "S"};
+inline constexpr int kNTokens = static_cast<int>(sizeof(kTokens) / sizeof(kTokens[0]));
+
+inline void replace_all(std::string& s, const std::string& a, const std::string& b) {
+  for (size_t pos = 0; (pos = s.find(a, pos)) != std::string::npos; pos += b.size()) s.replace(pos, a.size(), b);
+}
+
+inline std::string mutate(Ctx& c, const std::string& in) {
+  std::string s = in;
+  // structure-aware pass (half of the time): swap look-alike multi-byte characters, then maybe leave a
+  // multi-byte sequence incomplete at the end or the beginning
+  if (c.below(2)) {
+    switch (c.below(5)) {
+      case 0: replace_all(s, "\xCE\xBC", "\xC2\xB5"); break;
+      case 1: replace_all(s, "\xC2\xB7", "\xE2\x8B\x85"); break;
+      case 2: replace_all(s, "\xC2\xB0", "\xC2\xBA"); break;
+      case 3: s.insert(c.below(s.size() + 1), kTokens[c.below(static_cast<std::uint64_t>(kNTokens))]); break;
+      default: if (!s.empty()) { size_t p = c.below(s.size()); s.replace(p, 1, kTokens[c.below(static_cast<std::uint64_t>(kNTokens))]); } break;
+    }
+    switch (c.below(6)) {
+      case 0: s.push_back(static_cast<char>("\xC2\xCE\xE2\xF0\xC3\xEF"[c.below(6)])); break;       // lone lead byte at the end
+      case 1: { size_t i = s.size(); while (i > 0 && (static_cast<unsigned char>(s[i - 1]) & 0xC0) == 0x80) --i; if (i > 0 && i < s.size()) s.resize(i); } break;  // cut continuation bytes
+      case 2: s.insert(0, 1, static_cast<char>(0x80 + c.below(64))); break;                             // stray continuation byte first
+      default: break;
+    }
+    return s;
+  }
+  switch (c.below(8)) {
+    case 0: if (!s.empty()) s[c.below(s.size())] = static_cast<char>(c.next() & 0xFF); break;
+    case 1: if (!s.empty()) s.erase(c.below(s.size()), 1); break;
+    case 2: s.insert(c.below(s.size() + 1), 1, static_cast<char>(c.next() & 0xFF)); break;
+    case 3: s.push_back('\0'); break;
+    case 4: s.insert(0, 1, ' '); break;
+    case 5: s.push_back(' '); break;
+    case 6: for (auto& ch : s) if (ch >= 'a' && ch <= 'z' && c.below(2)) ch = static_cast<char>(ch - 32); break;
+    default: s += s; break;
+  }
+  return s;
+}
+
+inline std::string number_like(Ctx& c) {
+  switch (c.below(6)) {
+    case 0: case 1: return kNumberGrammar[c.below(static_cast<std::uint64_t>(kNumberGrammarSize))];
+    case 2: return mutate(c, kNumberGrammar[c.below(static_cast<std::uint64_t>(kNumberGrammarSize))]);
+    case 3: {
+      char b[128];
+      static const char* fmts[] = {"%.17Lg", "%Le", "%Lf", "%La", "%.40Lg", "%.0Lf"};
+      std::snprintf(b, sizeof b, fmts[c.below(6)], finite_value<long double>(c));
+      return b;
+    }
+    case 4: {
+      char b[128];
+      std::snprintf(b, sizeof b, "%.9g", static_cast<double>(finite_value<float>(c)));
+      return mutate(c, b);
+    }
+    default: return arbitrary_bytes(c);
+  }
+}
+
 inline std::string short_string(std::uint64_t idx) {  // index into the enumeration of all byte strings of length 0, 1, 2
   if (idx == 0) return std::string();
   if (idx <= 256) return std::string(1, static_cast<char>(idx - 1));
@@ -429,6 +514,7 @@ struct OpTable {
   const OpEntry* entries;
   int count;
 };
-void register_ops(const OpEntry* entries, int count);  // called by generated TUs' registrars
+void register_ops(const OpEntry* entries, int count);         // called by generated TUs' registrars (ordinary objects)
+void register_ops_inline(const OpEntry* entries, int count);  // same, from C++17 inline-variable registrars (C19 API sweep)
 
 }  // namespace vrt
